@@ -29,10 +29,10 @@ FULL = [o for o in ALL if o not in ('export_nobn', 'set_spec:single_b')]       #
 MID = ['export', 'summary', 'cost', 'get_cost:a', 'get_cost:b', 'set_spec:dict', 'set_spec:single_a', 'forward']
 SMALL = ['export', 'summary', 'get_cost:a', 'get_cost:b', 'forward']
 ALPH = {'full': FULL, 'full_pit': ['export_nobn'] + FULL, 'mid': MID, 'small': SMALL}
-STATE = ('params', 'buffers', 'train_wrapper', 'train_seed', 'train_leaves_all', 'train_leaves_any', 'train_sub_all', 'train_sub_any', 'flags', 'theta', 'rng', 'reqgrad')
+STATE = ('params', 'buffers', 'train_wrapper', 'train_seed', 'train_leaves_all', 'train_leaves_any', 'train_sub_all', 'train_sub_any', 'flags', 'theta', 'rng', 'reqgrad', 'sampling')
 DERIVED = ('cost', 'summary', 'export', 'output')
 GROUP = {'params': 'parameters', 'buffers': 'buffers', 'train_wrapper': 'training-mode', 'train_seed': 'training-mode', 'train_leaves_all': 'training-mode',
-         'train_leaves_any': 'training-mode', 'train_sub_all': 'training-mode', 'train_sub_any': 'training-mode', 'flags': 'training-mode', 'theta': 'sampled-coefficients', 'rng': 'rng', 'reqgrad': 'requires-grad',
+         'train_leaves_any': 'training-mode', 'train_sub_all': 'training-mode', 'train_sub_any': 'training-mode', 'flags': 'training-mode', 'theta': 'sampled-coefficients', 'sampling': 'sampling-options', 'rng': 'rng', 'reqgrad': 'requires-grad',
          'cost': 'cost', 'summary': 'summary', 'export': 'export', 'output': 'output'}
 
 
@@ -54,9 +54,26 @@ def all_cfgs():
     return out
 
 
+def option_cfgs():
+    """sampling options at non-default values at observer time (set through update_softmax_options in the prefix)"""
+    base = dict(full_cost=True, spec0='single_a', mixed=False)
+    out = []
+    for gumbel in (False, True):
+        m = dict(base, method='MPS', gumbel=gumbel, sub=('sampler',))
+        # frozen after some search steps: the stored coefficients differ from what alpha gives now
+        out.append(dict(m, train=True, prefix=('forward', 'train_step', 'train_step', 'opts:frozen')))
+        out.append(dict(m, train=True, prefix=('opts:hard', 'opts:temp', 'forward')))
+        out.append(dict(m, train=True, prefix=('opts:gumbel_off' if gumbel else 'opts:gumbel_on', 'forward', 'train_step')))
+        sn = dict(base, method='SuperNet', gumbel=gumbel, sub=('bn', 'drop'))
+        out.append(dict(sn, train=True, prefix=('opts:hard', 'opts:temp', 'forward', 'train_step')))
+    out.append(dict(base, method='MPS', gumbel=False, sub=('sampler',), train=False, prefix=('forward', 'train_step', 'opts:frozen', 'opts:temp')))
+    out.append(dict(base, method='SuperNet', gumbel=False, sub=('bn', 'drop'), train=False, prefix=('opts:temp', 'forward', 'opts:hard')))
+    return out
+
+
 def cfg_name(c):
     return '%s/%s/%s/%s/%s/%s' % (c['method'], 'gumbel' if c['gumbel'] else 'softmax', 'train' if c['train'] else 'eval', 'full_cost' if c['full_cost'] else 'nas_cost', c['spec0'],
-                                  ('mixed:' if c.get('mixed') else 'S=') + '+'.join(c.get('sub', ())))
+                                  ('mixed:' if c.get('mixed') else 'S=') + '+'.join(c.get('sub', ()))) + ('/after:' + ','.join(c['prefix']) if c.get('prefix') else '')
 
 
 def _task(t):
@@ -166,7 +183,11 @@ def coq_op(op):
         return '(OSetSpec %s)' % SPEC_COQ[op.split(':')[1]]
     if op.startswith('get_cost:'):
         return '(OGetCost "%s"%%string)' % op.split(':')[1]
-    return {'export': 'OExport', 'export_nobn': 'OExportNoBn', 'summary': 'OSummary', 'cost': 'OCost', 'forward': 'OForward', 'train_step': 'OTrainStep', 'flip_sub': 'OFlip'}[op]
+    return {'export': 'OExport', 'export_nobn': 'OExportNoBn', 'summary': 'OSummary', 'cost': 'OCost', 'forward': 'OForward', 'train_step': 'OTrainStep', 'flip_sub': 'OFlip',
+            'opts:frozen': '(OSetOpt (Some true) None None None)', 'opts:unfrozen': '(OSetOpt (Some false) None None None)',
+            'opts:hard': '(OSetOpt None (Some true) None None)', 'opts:soft': '(OSetOpt None (Some false) None None)',
+            'opts:gumbel_on': '(OSetOpt None None (Some true) None)', 'opts:gumbel_off': '(OSetOpt None None (Some false) None)',
+            'opts:temp': '(OSetOpt None None None (Some 2))', 'opts:temp1': '(OSetOpt None None None (Some 1))'}[op]
 
 
 def compare_path(cfg, path, nodes, mres, mism):
@@ -175,7 +196,7 @@ def compare_path(cfg, path, nodes, mres, mism):
     n = 0
     fps = [nodes[path[:i]][1] for i in range(len(path) + 1)]
     obs = [nodes[path[:i + 1]][0] for i in range(len(path))]
-    init = (0, 0, (cfg['train'],) * 3 + (cfg['train'] != bool(cfg.get('mixed')),), ('TInit',), 0, (SPEC_COQ[cfg['spec0']],), False)
+    init = (0, 0, (cfg['train'],) * 3 + (cfg['train'] != bool(cfg.get('mixed')),), ('TInit',), 0, (SPEC_COQ[cfg['spec0']],), False, (False, False, cfg['gumbel'], 1))
     k = len(cfg.get('prefix', ()))
     sts = ([init] + [r[1] for r in mres])[k:]
     mobs = [r[0] for r in mres][k:]
@@ -183,7 +204,7 @@ def compare_path(cfg, path, nodes, mres, mism):
     def bad(what, i, model, impl):
         mism.append({'what': what, 'cfg': cfg, 'ops': list(path), 'step': i, 'model': repr(model), 'impl': repr(impl)})
     for i, (st, fp) in enumerate(zip(sts, fps)):
-        pv, bv, (tw, ts, tl, tsub), th, rng, sp, pol = st
+        pv, bv, (tw, ts, tl, tsub), th, rng, sp, pol, mopt = st
         for nm, mv, iv in (('train_wrapper', tw, fp['train_wrapper']), ('train_seed', ts, fp['train_seed']), ('train_rest(all)', tl, fp['train_leaves_all']),
                            ('train_rest(any)', tl, fp['train_leaves_any']), ('train_sub(all)', tsub, tsub if fp['train_sub_all'] is None else fp['train_sub_all']),
                            ('train_sub(any)', tsub, tsub if fp['train_sub_any'] is None else fp['train_sub_any']), ('polluted', pol, fp['polluted']), ('spec', sp[0], SPEC_COQ[spec_after(cfg, path[:i])])):
@@ -197,8 +218,10 @@ def compare_path(cfg, path, nodes, mres, mism):
         for j in range(i + 1, len(sts)):
             a, b = sts[i], sts[j]
             for nm, ma, mb, key, both in (('params', a[0], b[0], 'params', True), ('rng', a[4], b[4], 'rng', True),
+                                          ('sampling options', a[7] if cfg['method'] != 'PIT' else 0, b[7] if cfg['method'] != 'PIT' else 0, 'sampling', True),
                                           ('buffers', (a[1], a[3] if mps else 0), (b[1], b[3] if mps else 0), 'buffers', j == i + 1 and a[1] != b[1]),
-                                          ('theta', a[3], b[3], 'theta', j == i + 1 and b[3][0] in ('TGumbel', 'TSoft') and cfg['method'] != 'PIT')):
+                                          ('theta', a[3], b[3], 'theta', j == i + 1 and cfg['method'] != 'PIT' and a[3][0] != 'TInit'
+                                           and ((b[3][0] == 'TGumbel' and not b[3][3]) or (b[3][0] == 'TSoft' and not b[3][2])))):     # one-hot samples may coincide
                 n += 1
                 ie = fps[i][key] == fps[j][key]
                 if (ma == mb and not ie) or (both and ma != mb and ie):
@@ -231,6 +254,8 @@ def plan(ctx):
             tasks += [('dfs', c, full(c), 2, op) for op in ALPH[full(c)]]
         for c in deep3:
             tasks += [('dfs', c, full(c), 3, op) for op in ALPH[full(c)]]
+        for c in option_cfgs():
+            tasks += [('dfs', c, 'mid', 2, op) for op in MID]
         nlin = 4
     else:
         for c in cfgs + deep3:
@@ -239,13 +264,20 @@ def plan(ctx):
             tasks += [('dfs', c, 'mid', 4, op) for op in MID]
         for c in deep3:
             tasks += [('dfs', c, 'small', 5, op) for op in SMALL]
+        for c in option_cfgs():
+            tasks += [('dfs', c, full(c), 2, op) for op in ALPH[full(c)]]
+            tasks += [('dfs', c, 'mid', 3, op) for op in MID]
         nlin = 20
     for c in cfgs:
         kinds = [k for k in I.KINDS if not (c['method'] == 'MPS' and k in ('bn', 'drop')) and not (c['method'] == 'PIT' and k == 'sampler')]
         for _ in range(nlin):
-            ops = [ctx.rng.choice(ALL) for _ in range(5)]
+            alph = ALL + ['opts:' + o for o in I.OPTS_FOR[c['method']]]
+            ops = [ctx.rng.choice(alph) for _ in range(5)]
             sub = tuple(k for k in kinds if ctx.rng.random() < 0.5) or (ctx.rng.choice(kinds),)
-            c2 = dict(c, spec0=ctx.rng.choice(I.SPECS), prefix=ctx.rng.choice([(), ('forward',)]), sub=sub, mixed=ctx.rng.random() < 0.5)
+            pre = ctx.rng.choice([(), ('forward',), ('forward', 'train_step')])
+            if I.OPTS_FOR[c['method']] and ctx.rng.random() < 0.5:       # non-default sampling options at observer time
+                pre = pre + tuple('opts:' + o for o in ctx.rng.sample(I.OPTS_FOR[c['method']], 2))
+            c2 = dict(c, spec0=ctx.rng.choice(I.SPECS), prefix=pre, sub=sub, mixed=ctx.rng.random() < 0.5)
             tasks.append(('lin', c2, ops))
     return tasks
 
@@ -257,7 +289,8 @@ def run(ctx):
                 'forward, search step, flip the flags of the sub-set S} on 20 configurations (method x sampler x train/eval x {full_cost + dict specification + uniform flags | '
                 'nas cost + single specification + MIXED flags: BatchNorm/Dropout/samplers opposite to the wrapper}) + 3 training configurations with full_cost, dict specification '
                 '(2 of them with mixed flags); every history runs from scratch on one freshly built live object; + seeded length-5 histories (random sub-set S, random mixed start, '
-                'random initial specification). quick: depth 2 on the 20, depth 3 on the 3; thorough: depth 3 on training / 2 on eval configurations, 8-op alphabet depth 4 on 4, '
+                'random initial specification, update_softmax_options presets as ops and in the prefix) + 10 MPS / SuperNet configurations whose sampling options are non-default at '
+                'observer time (disable_sampling=True after search steps, hard, temperature 0.5, gumbel switched; 8-op alphabet depth 2). quick: depth 2 on the 20, depth 3 on the 3; thorough: depth 3 on training / 2 on eval configurations, 8-op alphabet depth 4 on 4, '
                 '5-op alphabet depth 5 on 3; a case = one history; non-trivial = it contains an observer call; distinct = distinct (configuration, history)')
     tasks.sort(key=lambda t: -(len(ALPH[t[2]]) ** (t[3] - 1) if t[0] == 'dfs' else 1))
     mp = multiprocessing.get_context('fork')
@@ -279,7 +312,7 @@ def run(ctx):
                          sample={'cfg': cfg_name(cfg), 'ops': list(path), 'last_result': ob, 'fingerprint': {k: fp[k] for k in ('params', 'train_seed', 'rng', 'cost', 'export')}})
         path_oracles(cfg, nodes, fails)
         for path in nodes:
-            if path and not any(path + (o,) in nodes for o in ALL):
+            if path and not any(path + (o,) in nodes for o in ALL + ['opts:' + o for o in I.OPTS]):
                 leaves.append((cfg, nodes, path))
     ctx.exhaustive = True
     ctx.extra['exhaustive_part'] = 'all histories up to the stated depth over the stated alphabets (see rule); the 3 networks, their weights and the input batch are fixed'
